@@ -317,6 +317,27 @@ func ruleHeaderShortcut(c *Ctx, rule string) {
 				afterLoop = true
 			}
 		}
+		// the same for a loop that is not a range loop (`for more := true; more; { v, h, more = strings.Cut(h, ",") … }`):
+		// behind the exit edge of a loop header
+		for _, hb := range isAllowed.Blocks {
+			if len(hb.Instrs) == 0 || len(hb.Succs) != 2 {
+				continue
+			}
+			isHeader := false
+			for _, pred := range hb.Preds {
+				if hb.Dominates(pred) {
+					isHeader = true
+				}
+			}
+			if !isHeader {
+				continue
+			}
+			for _, ex := range hb.Succs {
+				if !blockReaches(ex, hb) && ex.Dominates(r.Block()) {
+					afterLoop = true
+				}
+			}
+		}
 		if afterLoop {
 			continue
 		}
@@ -781,4 +802,23 @@ func ruleStoredListsAreCopies(c *Ctx, rule string) {
 		})
 	}
 	_ = n
+}
+
+// blockReaches: to can be reached from from (from itself counts).
+func blockReaches(from, to *ssa.BasicBlock) bool {
+	seen := map[*ssa.BasicBlock]bool{}
+	stack := []*ssa.BasicBlock{from}
+	for len(stack) > 0 {
+		b := stack[len(stack)-1]
+		stack = stack[:len(stack)-1]
+		if b == to {
+			return true
+		}
+		if seen[b] {
+			continue
+		}
+		seen[b] = true
+		stack = append(stack, b.Succs...)
+	}
+	return false
 }
